@@ -263,7 +263,9 @@ def make_cases(pid, seed, n, start=0, profile_override=None):
         prof.update(profile_override)
     for i in range(start, start + n):
         c, g = gen_exec.gen_case("%s-%d" % (pid, seed), i, prof)
-        c.update({"id": i, "op": "exec", "store": "exact", "failAt": -1, "perStmt": True})
+        # C11/C12 streams alternate the store behaviour (the caller-owned static store returns whole accounts)
+        store = ["exact", "static", "superset", "sparse"][i % 4] if pid in ("C11", "C12") else "exact"
+        c.update({"id": i, "op": "exec", "store": store, "failAt": -1, "perStmt": True})
         cases.append(c)
         gens.append(g)
     return cases, gens
